@@ -111,6 +111,7 @@ static std::string describe(const mxArray* a) {
 }
 
 static void dump_state() {
+  vt::ref_pool().clear();      // referents of reference returns die once the call that received them is over
   for (auto& l : vt::trace()) { std::string x = l; for (auto& ch : x) { if (ch == '\n') ch = ' '; } printf("T %s\n", x.c_str()); }
   vt::trace().clear();
   std::string s;
